@@ -429,10 +429,16 @@ class FakeFS:
             return FileObj(path, mode)
         w.rt.funcs["open"] = open_
         ex = w.rt.externals
-        ex["os.path.isdir"] = ExternalFunc(lambda a, kw, ev, node: a[0] in ("/dir", "/"))
+        import posixpath as pp
+
+        def absolute(p):
+            return pp.normpath(p if pp.isabs(p) else pp.join("/cwd", p))
+        dirs = ("/", "/dir", "/cwd")        # the directories of the fake file system; "/cwd" is the working directory
+        ex["os.path.isdir"] = ExternalFunc(lambda a, kw, ev, node: a[0] != "" and absolute(a[0]) in dirs)
         ex["os.path.isfile"] = ExternalFunc(lambda a, kw, ev, node: a[0] in fs.files)
-        ex["os.path.abspath"] = ExternalFunc(lambda a, kw, ev, node: a[0])
-        ex["os.path.join"] = ExternalFunc(lambda a, kw, ev, node: "/dir" if len(a) == 2 and a[1] == ".." else "/".join(a))
+        ex["os.path.exists"] = ExternalFunc(lambda a, kw, ev, node: a[0] in fs.files or (a[0] != "" and absolute(a[0]) in dirs))
+        ex["os.path.abspath"] = ExternalFunc(lambda a, kw, ev, node: absolute(a[0]))
+        ex["os.getcwd"] = ExternalFunc(lambda a, kw, ev, node: "/cwd")
         ex["os.pardir"] = ".."
         ex["os.path.sep"] = "/"
 
@@ -449,9 +455,10 @@ def _check_files(res: Result, proj: Project, w: World):
         ("single", [[{5}]]),
         ("with-empty-ranking", [[{1}, {2, 3}], [], [{3}]]),
     ]
-    for label, raws in datasets:
+    for k_, (label, raws) in enumerate(datasets):
         d = w.dataset(raws)
-        path = f"/dir/{label}.txt"
+        # absolute path, relative path with a directory part, bare file name in the working directory
+        path = (f"/dir/{label}.txt", f"../dir/{label}.txt", f"{label}.txt")[k_ % 3]
         st, _ = w.safe("Dataset.write", w.call, d, "write", path)
         st2, back = w.safe("Dataset.from_file", lambda: w.rt.call_static(w.D, "from_file", path))
         good = st == "ok" and st2 == "ok" and (back == d) is True and w.raw_dataset(back) == w.raw_dataset(d)
